@@ -152,6 +152,9 @@ def run_scenario(scenario, _unused):
     cffi.FFI.compile = compile_
 
     slots = {}  # slot -> (request, objs, ns)
+    exposed = {}  # slot -> numpy print options were non-default when its arrays could be str()'d
+    np_default = dict(np.get_printoptions())
+    np_state = {"nondefault": False}
     keep = []  # keep unrelated objects alive so ids/counters are not recycled silently
     log = []
     obs = []
@@ -223,19 +226,23 @@ def run_scenario(scenario, _unused):
 
             objs, ns = req.build(between)
             slots[slot] = (req, objs, ns)
+            exposed[slot] = np_state["nondefault"]
         elif kind == "compile":
             _, slot, lang = op
             req, objs, ns = slots[slot]
+            exposed[slot] = exposed.get(slot, False) or np_state["nondefault"]
             code, suffixes = ffcx.compiler.compile_ufl_objects(
                 list(objs), options_for(req, lang), namespace="ns"
             )
             entry["o"] = record(
-                "text", req.name, {"lang": lang or "C", "suffixes": list(suffixes)},
+                "text", req.name, {"lang": lang or "C", "suffixes": list(suffixes),
+                                   "np_print_exposed": bool(exposed.get(slot))},
                 {f"part{i}": c for i, c in enumerate(code)},
             )
         elif kind == "jitname":
             _, slot = op
             req, objs, ns = slots[slot]
+            exposed[slot] = exposed.get(slot, False) or np_state["nondefault"]
             seen.clear()
             fn = jit.compile_forms if req.kind == "forms" else jit.compile_expressions
             handlers_before = list(root.handlers)
@@ -253,6 +260,7 @@ def run_scenario(scenario, _unused):
             entry["o"] = record(
                 "jit", req.name,
                 {"module_name": seen.get("module_name"), "object_names": names, "raised": raised,
+                 "np_print_exposed": bool(exposed.get(slot)),
                  "compile_args": seen.get("kw", {}).get("extra_compile_args")},
                 {"cdef": seen.get("cdef", ""), "source": seen.get("source", "")},
             )
@@ -284,12 +292,14 @@ def run_scenario(scenario, _unused):
             for name in sorted(os.listdir(d)):
                 if name.startswith("req") and name != "req.py":
                     texts["file_" + name.replace(".", "_")] = open(os.path.join(d, name)).read()
-            entry["o"] = record("cli", req.name, {"lang": lang or "C"}, texts)
+            entry["o"] = record("cli", req.name, {"lang": lang or "C",
+                                                  "np_print_exposed": np_state["nondefault"]}, texts)
         elif kind == "reform":
             # a Form rebuilt from the integrals of an already compiled one
             _, slot, newslot = op
             req, objs, ns = slots[slot]
             slots[newslot] = (req, [ufl.Form(f.integrals()) for f in objs], ns)
+            exposed[newslot] = exposed.get(slot, False) or np_state["nondefault"]
         elif kind == "options":
             what = op[1]
             if what == "verbosity":
@@ -300,6 +310,17 @@ def run_scenario(scenario, _unused):
                 ffcx.options.get_options()
             elif what == "scalar":
                 ffcx.options.get_options({"scalar_type": op[2]})
+        elif kind == "nprint":
+            # numpy's print options are process-global state that earlier code may have changed
+            if op[1] == "low":
+                np.set_printoptions(precision=3, threshold=5, edgeitems=1, suppress=True, linewidth=40)
+            elif op[1] == "high":
+                np.set_printoptions(precision=17, threshold=100000, floatmode="maxprec_equal")
+            elif op[1] == "legacy":
+                np.set_printoptions(legacy="1.13")
+            else:
+                np.set_printoptions(**np_default)
+            np_state["nondefault"] = op[1] in ("low", "high", "legacy")
         elif kind == "churn":
             _, n, size = op
             keep.append([bytearray(size) for _ in range(n)])
